@@ -310,7 +310,7 @@ theorem extend_single (w : World) (i : Nat) (v : Iov) (s : Slice) (hv : w.iov i 
   by_cases h0 : s.len = 0
   · simp [World.extend, World.pushBorrowed, hv, h0]
   · simp only [World.extend, h0, if_false]
-    cases w.pushBorrowed i s <;> simp [World.extend]
+    cases w.pushBorrowed i s <;> simp
 
 theorem World.pushBorrowed_lent (w : World) (i : Nat) (v : Iov) (s : Slice) (bs : List UInt8)
     (hv : w.iov i = some v) (hinv : IovInv w v) (hl : LentOk w s bs) :
@@ -493,5 +493,159 @@ theorem target_other {g : GW} {op : WOp} {w' : World} {caps : Nat → Nat} {i : 
       exact IovInv.empty _ ⟨none⟩ (by intro ca hca; cases hca)
     · rw [absW_live _ i Iov.empty hiov]
       simp [GW.ghost', GW.nid', PW.structStep, GW.pw, absCells, Iov.empty, mkCells, Woodpile.Pipe.empty]
+
+/-! ### The handle a step creates -/
+
+theorem pairwise_of_forall_mem {α} {R : α → α → Prop} : ∀ {l : List α}, (∀ a ∈ l, ∀ b ∈ l, R a b) → l.Pairwise R
+  | [], _ => List.Pairwise.nil
+  | x :: t, h => List.Pairwise.cons (fun b hb => h x (by simp) b (by simp [hb]))
+      (pairwise_of_forall_mem (fun a ha b hb => h a (by simp [ha]) b (by simp [hb])))
+
+theorem flat_filter_pos (w : World) (l : List Slice) : w.flat (l.filter (fun s => s.len > 0)) = w.flat l := by
+  induction l with
+  | nil => rfl
+  | cons s t ih =>
+    by_cases h : s.len > 0
+    · simp [h, ih]
+    · have h0 : s.len = 0 := by omega
+      simp [h, ih, sliceBytes_len0 w s h0]
+
+theorem flat_of_lent (w : World) (l : List (Slice × List UInt8)) (h : ∀ p ∈ l, LentOk w p.1 p.2) :
+    w.flat (l.map (·.1)) = (l.map (·.2)).flatten := by
+  induction l with
+  | nil => rfl
+  | cons p t ih =>
+    simp only [List.map_cons, World.flat_cons, List.flatten_cons]
+    rw [(h p (by simp)).bytes, ih (fun q hq => h q (by simp [hq]))]
+
+/-- `new_from_slices`: the fresh iovec satisfies the invariant and holds exactly the bytes of the buffers. -/
+theorem newFromSlices_spec (w : World) (bufs : List (List UInt8)) :
+    ∃ vn, ((w.addExts bufs).1.newFromSlices (w.addExts bufs).2 ⟨none⟩).1.iov w.iovs.length = some vn ∧
+      IovInv ((w.addExts bufs).1.newFromSlices (w.addExts bufs).2 ⟨none⟩).1 vn ∧
+      absCells ((w.addExts bufs).1.newFromSlices (w.addExts bufs).2 ⟨none⟩).1 vn = bufs.flatten.map Cell.byte := by
+  obtain ⟨l, h1, h2, h3⟩ := lendAll_spec w (bufs.map Borrow.whole)
+  rw [← addExts_lendAll] at h1 h3
+  have h2' : l.map (·.2) = bufs := by
+    rw [h2, List.map_map]
+    have : ((fun x : Borrow => x.bs) ∘ Borrow.whole) = id := by funext b; rfl
+    rw [this, List.map_id]
+  obtain ⟨he, _⟩ := addExts_spec w bufs
+  have hlen : (w.addExts bufs).1.iovs.length = w.iovs.length := by rw [he]
+  generalize hw1 : (w.addExts bufs).1 = w1 at h3 hlen
+  generalize hsl : (w.addExts bufs).2 = slices at h1
+  let fl := slices.filter (fun s => s.len > 0)
+  let vn : Iov := { Iov.empty with slices := fl, anchors := if fl.isEmpty then [] else [⟨fl.length, none⟩],
+                                   arena := ⟨none⟩, logicalSize := (fl.map (·.len)).foldl (· + ·) 0 }
+  have hw' : (w1.newFromSlices slices ⟨none⟩).1 = (w1.addIov vn).1 := rfl
+  have hmem : ∀ s ∈ fl, ∃ p ∈ l, p.1 = s ∧ 0 < s.len := by
+    intro s hs
+    obtain ⟨hs1, hs2⟩ := List.mem_filter.mp hs
+    rw [h1] at hs1
+    obtain ⟨p, hp, rfl⟩ := List.mem_map.mp hs1
+    exact ⟨p, hp, rfl, by simpa using hs2⟩
+  refine ⟨vn, ?_, ?_, ?_⟩
+  · rw [hw', iov_addIov, hlen]; simp
+  · rw [hw']
+    refine IovInv.of_world (w := w1) ?_ (fun _ => Nat.le_refl _) (Nat.le_refl _)
+    exact
+      { slices_ok := by
+          intro s hs
+          obtain ⟨p, hp, rfl, hpos⟩ := hmem s hs
+          have hl := h3 p hp
+          exact hl.ok (by intro e; have := hl.len; rw [e] at this; simp at this; omega) _
+        ordered := by
+          apply pairwise_of_forall_mem
+          intro a ha b _ c hc
+          obtain ⟨p, hp, rfl, _⟩ := hmem a ha
+          obtain ⟨b', hb'⟩ := (h3 p hp).ext
+          rw [hb'] at hc; cases hc
+        size_eq := by
+          show 0 + sumLens fl = (fl.map (·.len)).foldl (· + ·) 0
+          rw [foldl_add_eq_sum]; simp [sumLens]
+        anchors_sum := by
+          show sumCounts (if fl.isEmpty then [] else [⟨fl.length, none⟩]) = fl.length
+          cases fl with
+          | nil => rfl
+          | cons _ _ => simp
+        cache_fresh := by intro ca hca; cases hca
+        br_ok := by intro e he; cases he
+        br_sorted := List.Pairwise.nil }
+  · rw [hw']
+    have hflat : (w1.addIov vn).1.flat fl = bufs.flatten := by
+      have e1 : (w1.addIov vn).1.flat fl = w1.flat fl := flat_congr _ (fun _ _ => rfl)
+      rw [e1, flat_filter_pos, h1, flat_of_lent w1 l h3, h2']
+    show mkCells [] 0 ((w1.addIov vn).1.flat fl) = _
+    rw [hflat]
+    exact mkCells_none [] 0 _ (fun _ _ => rfl)
+
+theorem created_goal {g : GW} {op : WOp} {w' : World} {caps : Nat → Nat} (hg : GReach g.w caps) (hall : AllInv g.w)
+    (h1 : g.w.step op = some w') (hc : op.creates = true) : TargetGoal g op w' g.w.iovs.length := by
+  have hwi := hg.reachable.inv
+  cases op with
+  | new =>
+    simp only [World.step, Option.some.injEq] at h1
+    subst h1
+    refine goal_struct rfl (fun y hy => ?_) ?_
+    · simp at hy; subst hy
+      exact IovInv.empty _ ⟨none⟩ (by intro ca hca; cases hca)
+    · rw [absW_live _ _ Iov.empty (by simp)]
+      simp [GW.ghost', GW.nid', PW.structStep, GW.pw, absCells, Iov.empty, mkCells, Woodpile.Pipe.empty]
+  | newFromArena a =>
+    simp only [World.step] at h1
+    cases har : g.w.arena a with
+    | none => rw [har] at h1; cases h1
+    | some ar =>
+      rw [har] at h1
+      simp only [Option.some.injEq] at h1
+      subst h1
+      have hlen : (g.w.setArena a none).iovs.length = g.w.iovs.length := rfl
+      refine goal_struct rfl (fun y hy => ?_) ?_
+      · rw [iov_addIov, hlen, if_pos rfl] at hy
+        cases hy
+        exact IovInv.empty _ ar (fun ca hca => hwi.arenaOk a ar har ca hca)
+      · rw [absW_live _ _ { Iov.empty with arena := ar } (by rw [iov_addIov, hlen, if_pos rfl])]
+        simp [GW.ghost', GW.nid', PW.structStep, GW.pw, absCells, Iov.empty, mkCells, Woodpile.Pipe.empty]
+  | newFromSlices bufs =>
+    simp only [World.step, Option.some.injEq] at h1
+    subst h1
+    obtain ⟨vn, g1, g2, g3⟩ := newFromSlices_spec g.w bufs
+    refine goal_struct rfl (fun y hy => by rw [g1] at hy; cases hy; exact g2) ?_
+    rw [absW_live _ _ vn g1]
+    simp [GW.ghost', GW.nid', PW.structStep, GW.pw, g3, Woodpile.Pipe.empty, Pipe.append]
+  | take i =>
+    simp only [World.step, World.take] at h1
+    cases hv : g.w.iov i with
+    | none => rw [hv] at h1; cases h1
+    | some v =>
+      rw [hv] at h1
+      simp only [Option.some.injEq] at h1
+      subst h1
+      have hin : g.w.iovs.length ≠ i := fun e => Nat.lt_irrefl _ (e ▸ iov_lt_of_some hv)
+      have hlen : (g.w.setIov i (some Iov.empty)).iovs.length = g.w.iovs.length := setIov_length _ hv
+      have hiov : ((g.w.setIov i (some Iov.empty)).addIov v).1.iov g.w.iovs.length = some v := by
+        rw [iov_addIov, hlen, if_pos rfl]
+      refine goal_struct rfl (fun y hy => ?_) ?_
+      · rw [hiov] at hy; cases hy
+        exact (hall i v hv).of_world (fun _ => Nat.le_refl _) (Nat.le_refl _)
+      · rw [absW_live _ _ v hiov]
+        simp only [GW.ghost', GW.nid', PW.structStep, GW.pw, fupd_ne _ _ hin, fupd_same]
+        rw [absW_live g i v hv]
+        rfl
+  | clone i =>
+    simp only [World.step, World.clone] at h1
+    cases hv : g.w.iov i with
+    | none => rw [hv] at h1; cases h1
+    | some v =>
+      rw [hv] at h1
+      simp only [Option.some.injEq] at h1
+      subst h1
+      have hinv' : IovInv (g.w.addIov { v with arena := ⟨none⟩ }).1 { v with arena := ⟨none⟩ } :=
+        (hall i v hv).set_arena ⟨none⟩ rfl (Nat.le_refl _) (by intro ca hca; cases hca)
+      refine goal_struct rfl (fun y hy => by simp at hy; subst hy; exact hinv') ?_
+      rw [absW_live _ _ { v with arena := ⟨none⟩ } (by simp)]
+      simp only [GW.ghost', GW.nid', PW.structStep, GW.pw, fupd_same]
+      rw [absW_live g i v hv]
+      rfl
+  | _ => simp [WOp.creates] at hc
 
 end Woodpile.Iovec
